@@ -427,7 +427,7 @@ int main()
 			if (f == "sqw") histw_dispatch<Fn::sqrt>(l, is, true); else if (f == "cnw") histw_dispatch<Fn::cnst>(l, is, true);
 			else if (f == "sq") hist2_dispatch<Fn::sqrt>(l, is); else hist2_dispatch<Fn::cnst>(l, is);
 		}
-		else if (cmd == "hist")
+		else if (cmd == "hist" || cmd == "ghist")   // ghist: same histories, compared with the GENERATED container functions
 		{
 			std::string f; ull l; is >> f >> l;
 			if (f == "sqw") histw_dispatch<Fn::sqrt>(l, is, false); else if (f == "cnw") histw_dispatch<Fn::cnst>(l, is, false);
